@@ -2,6 +2,7 @@ import RubyTi.Model.Frame
 import RubyTi.Model.Token
 import RubyTi.Props.C19
 import RubyTi.Model.Namespace
+import RubyTi.Gen.ClassFacts
 
 /-!
 # C20 — declarations for classes a program never mentions do not affect it
@@ -63,6 +64,14 @@ theorem superclass_extra_names (tbl : Defined) (bc extra builtin ctxFrame qualif
     simp [List.contains_eq_mem, List.mem_append, h]
   unfold superclassFrame
   rw [this]
+
+/-- The shape of the two places that consult the flat list besides token classification, as the source has them
+now: the superclass choice tests `isOwnClass` (taken from `LookupDefinedClassFrame`) before redirecting to frame
+Builtin and otherwise looks the name up lexically — the shape `superclassFrame` models —, and both include/extend
+redirects test the edge's own frame and exclude names the program defines at top level — what the `lookup` stream's
+model assumes. -/
+theorem class_list_guards :
+    Gen.superclassOwnClassGuard = true ∧ Gen.parentRedirects = 2 ∧ Gen.parentRedirectsGuarded = Gen.parentRedirects := by decide
 
 open RubyTi.Namespace in
 /-- non-vacuity: `class Fuga < Hoge` at top level with the program's own `Hoge`, with and without a configured `Gui::Hoge` -/
